@@ -63,6 +63,7 @@ type Sched struct {
 	chans        map[uintptr]*chanState
 	Log          []string
 	Active       bool
+	frozen       bool
 	DaemonPanics []string
 	MaxThreads   int
 	LogOn        bool
@@ -95,7 +96,15 @@ func (s *Sched) reset(prefix []int) {
 
 type divergence string
 
+// Freeze ends the explored part of an execution: every later choice takes the default answer and is not a branching
+// point. Harnesses use it for a deterministic epilogue (e.g. restarting a component on the storage the explored part left
+// behind) whose interleavings are not the subject of the check.
+func Freeze() { S.frozen = true }
+
 func (s *Sched) choose(n, free int) int {
+	if s.frozen {
+		return 0
+	}
 	c := 0
 	i := len(s.Points)
 	if i < len(s.prefix) {
